@@ -28,6 +28,7 @@ Oracle: clauses bytes-unchanged, handle-stays-read-only, must-raise, helper-leav
 from __future__ import annotations
 
 import os
+import sys
 
 from .. import c10_lib as lib
 from .. import core, fixtures
@@ -137,17 +138,31 @@ def run(ctx):  # noqa: C901
     if missing:
         raise core.HarnessError("public methods without an argument tuple in mc/c10_lib.ARGS (a new entry point?): " + ", ".join(missing))
     singles, pairs = enumerate_cases(ctx, described)
+    cap = int(os.environ.get("VERIF_C10_MAXPAIRS", "0") or 0)  # development aid (evidence then says exhaustive=False)
+    if cap:
+        pairs = pairs[:: max(1, len(pairs) // cap)][:cap]
     if ctx.seed:  # the seed only rotates the execution order (verdicts do not depend on it)
         k = ctx.seed * 7919 % max(1, len(singles))
         singles = singles[k:] + singles[:k]
         k = ctx.seed * 7919 % max(1, len(pairs))
         pairs = pairs[k:] + pairs[:k]
+    # determinism self-test: the same case twice in this process gives the same result
+    ndet = 0
+    probes = [c for c in singles if c["ops"][0]["m"] in ("repack", "uid", "name", "save_as", "copy")][:8]
+    for case in probes + singles[:: max(1, len(singles) // 5)][:5] + pairs[:: max(1, len(pairs) // 3)][:3]:
+        a, b = lib.run_case(case, "always"), lib.run_case(case, "always")
+        if core.jdump(a) != core.jdump(b):
+            raise core.HarnessError(f"non-deterministic execution of {case}")
+        ndet += 1
     res1 = core.pmap(run_single, singles)
-    res2 = core.pmap(run_pair, pairs)
+    res2 = []
+    for start in range(0, len(pairs), 10000):  # in blocks, so that a long run shows signs of life on stderr
+        res2 += core.pmap(run_pair, pairs[start : start + 10000])
+        print(f"[C10] {min(start + 10000, len(pairs))}/{len(pairs)} pairs after {ctx.elapsed():.0f}s", file=sys.stderr, flush=True)
 
     states, transitions, judged = set(), 0, 0
     wrote_and_refused, twin_runs, entry_points = 0, 0, set()
-    refusing, silent_ok = set(), set()
+    refusing, silent_ok, twin_failed = set(), set(), set()
     # a clause already broken by one member of a pair on its own explains the pair: not reported twice
     single_viol: dict = {}
     for case, res in zip(singles, res1):
@@ -178,14 +193,9 @@ def run(ctx):  # noqa: C901
             ctx.outcomes.add((lib.witness(op), res["ro"][i], None if tw is None else (tw["outcomes"][i], tw["wrote"][i]), bool(res["viol"])))
             if len(ops) == 1 and tw is not None and tw["wrote"][0]:
                 (refusing if res["ro"][0] == "raised" else silent_ok).add(lib.witness(op))
+            if len(ops) == 1 and tw is not None and tw["outcomes"][0] == "raised":
+                twin_failed.add(lib.witness(op))
 
-    # determinism self-test: the same case twice in this process gives the same result
-    ndet = 0
-    for case in (singles[:: max(1, len(singles) // 5)][:5] + pairs[:: max(1, len(pairs) // 3)][:3]):
-        a, b = lib.run_case(case, "always"), lib.run_case(case, "always")
-        if core.jdump(a) != core.jdump(b):
-            raise core.HarnessError(f"non-deterministic execution of {case}")
-        ndet += 1
     for case in singles[:: max(1, len(singles) // 3)][:3] + pairs[:: max(1, len(pairs) // 3)][:3]:
         ctx.sample({"scene": case["scene"], "ops": [lib.op_label(o) for o in case["ops"]] + ["close"]})
     ctx.cover(
@@ -199,13 +209,14 @@ def run(ctx):  # noqa: C901
         concrete_classes=n_classes,
         entry_points=len(entry_points),
         entry_points_that_write_in_the_twin_and_raise_read_only=len(refusing),
+        entry_points_whose_twin_call_raised_in_some_scene=len(twin_failed),
         twin_runs=twin_runs,
         twin_writes_refused_read_only=wrote_and_refused,
         helpers=len(lib.HELPERS),
         distinct_outcomes=len(ctx.outcomes),
         determinism_replays=ndet,
         pair_violations_explained_by_a_single_op=explained,
-        exhaustive=not only,
+        exhaustive=not only and not cap,
         alphabet="get / set / call of every public member of Workspace, entities, entity types, property groups, colour and value maps "
         "(runtime classes, incl. concatenated storage) + helpers " + ", ".join(lib.HELPERS),
         bound=(
